@@ -26,16 +26,6 @@ namespace HS
 /-- `p` is a valid pixel of `m` (`get_values_pix(p, valid_mask=True)`) -/
 def MapObj.validAt (m : MapObj) (p : Nat) : Bool := m.vc.valid (m.abs p)
 
-/-- number of fields of a record kind -/
-def Kind.nfields : Kind → Nat
-  | .recd fs _ => fs.length
-  | _ => 0
-
-/-- every storage cell is a record with the kind's number of fields (numpy: the array has the
-    record dtype).  Not part of `MapObj.Ok`. -/
-def MapObj.RecCells (m : MapObj) : Prop :=
-  ∀ (i : Nat) (x : Val), m.st.sp[i]? = some x → ∃ l, x = .recd l ∧ l.length = m.kind.nfields
-
 namespace ApiRecord
 open WFApi
 
